@@ -22,6 +22,9 @@ def fail(clause, detail=None, key=None):
 def judge(ctx, checker, case, calls=1, nontrivial=True, bulk=False):
     case = dict(case)
     case["kind"] = checker.kind
+    from mc import forms
+    if forms.CURRENT is not None:
+        case["form"] = forms.CURRENT
     res = checker(case)
     fails, sig = res if isinstance(res, tuple) else (res, None)
     ctx.call(calls)
@@ -29,6 +32,8 @@ def judge(ctx, checker, case, calls=1, nontrivial=True, bulk=False):
         ctx.bulk(1)
     for f in fails:
         k = dict(f.get("key") or {})
+        if forms.CURRENT is not None:
+            k["form"] = forms.CURRENT
         ctx.fail(f["clause"], case, f.get("detail"), k)
     if sig is not None:
         ctx.outcome((checker.kind, sig), nontrivial=nontrivial if not callable(nontrivial) else nontrivial(sig))
@@ -39,7 +44,14 @@ def replay(case):
     if case.get("kind") == "execution":
         return []      # the whole execution is the case: mc/cli.py re-executes the recorded choices
     fn = KINDS[case["kind"]]
-    res = fn(case)
+    from mc import forms
+    if case.get("form"):
+        forms.install()
+        forms.CURRENT = case["form"]
+    try:
+        res = fn(case)
+    finally:
+        forms.CURRENT = None
     fails = res[0] if isinstance(res, tuple) else res
     return fails
 
